@@ -66,6 +66,9 @@ def parse_output(out):
             res["failed_checks"].append({"check": cid, "description": desc, "location": loc})
     if res["result"] == "FAILURE" and res["failed_checks"] and all("unwinding assertion" in c["description"] for c in res["failed_checks"]):
         res["result"] = "UNWIND-BOUND-TOO-SMALL"
+    if res["result"] == "FAILURE" and res["failed_checks"] and all("unsupported_construct" in c["check"] or "not currently supported by Kani" in c["description"] for c in res["failed_checks"]):
+        # the harness reaches code Kani cannot translate (inline asm, ...): a tool limit, never an alarm
+        res["result"] = "UNSUPPORTED-CONSTRUCT"
     if res["result"] == "FAILURE" and not res["failed_checks"]:
         # CBMC died (out of memory / killed): a resource verdict, never an alarm
         res["result"] = "RESOURCE"
